@@ -25,7 +25,7 @@ RULE = ("cases: constructor-built plog models of every class of the JSON class m
         "configurators with defaulted Any/Xor; to_json -> json.dumps -> json.loads -> from_json. non-trivial: depth>=2; distinct by recipe digest")
 BUDGET = {"quick": (8, 200, 60), "thorough": (16, 3000, 900)}
 CLASSES = ["All", "Any", "AtLeast", "AtMost", "Xor", "ExactlyOne", "XNor", "Imply", "Not", "ccAny", "ccXor", "Stingy"]
-MANDATORY = ["judged:same-leaves", "judged:same-truth", "judged:explicit-ids-kept", "judged:no-id-for-generated", "judged:config:default-prios",
+MANDATORY = ["judged:defaults-kept", "judged:same-leaves", "judged:same-truth", "judged:explicit-ids-kept", "judged:no-id-for-generated", "judged:config:default-prios",
              "judged:config:polyhedron"] + ["count:class:" + c for c in CLASSES]
 
 _n = 0
@@ -114,6 +114,10 @@ def roundtrip_post(pre, args, kwargs, result):
     emitted = set(json_ids(data))
     base = recipe_explicit if recipe_explicit is not None else exp1
     ctx.check(emitted <= base, "no-id-for-generated", lambda: dict(wit, emitted_ids=sorted(map(str, emitted)), explicit=sorted(map(str, base))), facts)
+    # defaults are kept (node by node, modulo the names of generated ids)
+    d1, d2 = defaults_of(self, graph, top, info), defaults_of(back, g2, t2, i2)
+    if d1 or d2 or is_cfg:
+        ctx.check(d1 == d2, "defaults-kept", lambda: dict(wit, before=d1, after=d2), facts)
     if is_cfg:
         c14.clear_caches()
         p1 = self.to_ge_polyhedron(True)
@@ -129,6 +133,22 @@ def roundtrip_post(pre, args, kwargs, result):
         ctx.nt(refmodel.recipe_digest(case["recipe"]) if case.get("recipe") else refmodel.shape_digest(graph, top))
     ctx.sample({"recipe": case.get("recipe"), "json": data, "assignments": n})
     return True
+
+
+def defaults_of(model, graph, top, info):
+    names = refmodel.canon_names(graph, top, info["generated"])
+    out = []
+    stack, seen = [model], set()
+    while stack:
+        n = stack.pop()
+        if id(n) in seen or adapters.is_leaf(n):
+            continue
+        seen.add(id(n))
+        d = getattr(n, "default", None)
+        if d:
+            out.append((names.get(n.id, str(n.id)), tuple(sorted(str(getattr(x, "id", x)) for x in d))))
+        stack.extend(n.propositions)
+    return sorted(set(out))
 
 
 def pnd_cfg(cfg, poly):
